@@ -505,8 +505,29 @@ def _frozen(ctx, model):
            "expr_dataclass lets dataclass generate __eq__ (and set __hash__), "
            "which the template then fights with")
     # the augmentation is applied to the created class with the hash flag
-    src = ast.unparse(fn).replace(" ", "").replace("\n", "")
-    ok = "_augment_expression_dataclass(dc_cls,hash=hash)" in src
+    # (def-use: the value dataclass(...)(cls) produced is what is augmented and
+    # returned; the decorator's hash parameter is handed on)
+    made = set()
+    for st in ast.walk(fn):
+        if isinstance(st, ast.Assign) and len(st.targets) == 1 and isinstance(
+                st.targets[0], ast.Name) and any(c is call for c in
+                                                 ast.walk(st.value)):
+            made.add(st.targets[0].id)
+    hash_param = "hash" if any(a.arg == "hash" for a in
+                               fn.args.args + fn.args.kwonlyargs) else None
+    ok = False
+    for c in ast.walk(fn):
+        if isinstance(c, ast.Call) and ast.unparse(c.func) == \
+                "_augment_expression_dataclass":
+            first = c.args[0] if c.args else next(
+                (k.value for k in c.keywords if k.arg == "cls"), None)
+            hv = c.args[1] if len(c.args) > 1 else next(
+                (k.value for k in c.keywords if k.arg == "hash"), None)
+            aug_direct = first is not None and any(cc is call
+                                                   for cc in ast.walk(first))
+            ok = first is not None and (
+                aug_direct or (isinstance(first, ast.Name) and first.id in made)
+            ) and isinstance(hv, ast.Name) and hv.id == hash_param
     ctx.ob("T/expr_dataclass/augmented", ok, loc,
            "the created dataclass is augmented" if ok else
            "expr_dataclass does not pass the created class (and the hash flag) "
